@@ -354,6 +354,13 @@ v("break-c12-power-rounded", "break", "C12", "JSON-ATTR", [
     (E, "\t\tc.BoostPower = &e.boostPower\n", "\t\trounded := float64(int(e.boostPower*100)) / 100\n\t\tc.BoostPower = &rounded\n"),
 ], "the encoder writes a rounded boost power")
 
+v("break-c13-list-member-nested", "break", "C13", "JSON-LIST-LEAF", [
+    (E, "\t\t\tparsedExp, err := unmarshalLiteral(v)\n\t\t\tif err != nil {\n\t\t\t\treturn err\n\t\t\t}\n\t\t\texprs = append(exprs, parsedExp)", "\t\t\tparsedExp := ptr(empty())\n\t\t\terr := json.Unmarshal(v, parsedExp)\n\t\t\tif err != nil {\n\t\t\t\treturn err\n\t\t\t}\n\t\t\texprs = append(exprs, parsedExp)"),
+], "a value-list member is decoded as a full nested expression, which Validate never descends into")
+v("break-c02-reducer-makes-leaf", "break", "C02", "NODE-SOURCES", [
+    (R, "\treturn []any{expr.MUSTNOT(rest)}, drop(nonTerminals, 1), true\n", "\tif word, isWord := rest.Left.(string); isWord && rest.Op == expr.Wild {\n\t\trest = expr.WILD(\"(\" + word + \")\")\n\t}\n\treturn []any{expr.MUSTNOT(rest)}, drop(nonTerminals, 1), true\n"),
+], "a reducer builds a pattern leaf from text it assembled: a constant that is not a value of the query")
+
 def main():
     os.makedirs(OUT, exist_ok=True)
     for f in os.listdir(OUT):
